@@ -50,7 +50,9 @@ class TypeNormalizer:
         if UnionType and isinstance(t, UnionType):
             return self(t.__args__, fn)
         elif origin is type:
-            return t
+            # typing.Any counts as object inside the argument too:
+            # type[Any], type[list[Any]], type[dict[str, Any]]
+            return type[tuple(_any_to_object(a) for a in t.__args__)]
         elif origin and getattr(t, "__args__", None) is None:
             return t
         elif origin is not None:
@@ -76,6 +78,34 @@ class TypeNormalizer:
             )
         else:
             return t
+
+
+def _any_to_object(t):
+    if t is typing.Any:
+        return object
+    args = getattr(t, "__args__", None)
+    origin = getattr(t, "__origin__", None)
+    if args and origin is not None and typing.Any in _flatten(args):
+        new_args = tuple(
+            [_any_to_object(x) for x in a]
+            if isinstance(a, list)
+            else _any_to_object(a)
+            for a in args
+        )
+        try:
+            return origin[new_args if len(new_args) != 1 else new_args[0]]
+        except TypeError:  # pragma: no cover
+            return t
+    return t
+
+
+def _flatten(args):
+    for a in args:
+        if isinstance(a, (list, tuple)):
+            yield from _flatten(a)
+        else:
+            yield a
+            yield from _flatten(getattr(a, "__args__", None) or ())
 
 
 normalize_type = TypeNormalizer()
